@@ -51,6 +51,7 @@ type oresp struct {
 	Cuts     []int    // the wire bytes are written in pieces cut at these offsets (sorted)
 	GapMs    int      // pause between the pieces (0 = none); used by the timing scenarios
 	KeepOpen bool     // origin keeps its connection open after this response (false: closes when Framing == "close")
+	onRequest func()  // called by the origin when the request for this response arrives (not part of the replay format)
 	Raw      []string // timing scenarios: the exact pieces the origin writes, GapMs apart (overrides everything else)
 	RawClose bool     // close the origin connection after the raw pieces
 }
@@ -158,6 +159,9 @@ func (o *originSrv) serve(c net.Conn) {
 		if r == nil {
 			c.Write([]byte("HTTP/1.1 500 no script\r\nContent-Length: 0\r\n\r\n"))
 			continue
+		}
+		if r.onRequest != nil {
+			r.onRequest()
 		}
 		if len(r.Raw) > 0 {
 			for i, piece := range r.Raw {
@@ -777,10 +781,10 @@ func corpus() []ecaseJ {
 				Framing: "cl", Body: "ok", HeadCL: -1, KeepOpen: true}},
 			{xreq{Method: "HEAD", Proto: "HTTP/1.1"}, oresp{Proto: "HTTP/1.1", Code: 200, Reason: "OK", Fields: []hfield{{"Connection", "X-A-Hop,x-b-hop ,\tX-C-HOP"}, {"X-A-Hop", "a"}, {"X-B-Hop", "b"}, {"X-C-Hop", "c"}, {"X-Keep", "k"}},
 				Framing: "none", HeadCL: 2, KeepOpen: true}}}},
-		{Class: "response-written-while-shutting-down", Shutdown: 120, Exchs: []exchJ{
+		{Class: "response-written-while-shutting-down", Shutdown: 400, Exchs: []exchJ{
 			{get("HTTP/1.1"), oresp{Raw: []string{"", "HTTP/1.1 200 OK\r\nContent-Length: 2\r\nX-Keep: k\r\n\r\nok"}, GapMs: 400, Proto: "HTTP/1.1", Code: 200, Reason: "OK", Fields: []hfield{{"X-Keep", "k"}}, Framing: "cl", Body: "ok", HeadCL: -1}},
 			{get("HTTP/1.1"), plain}}},
-		{Class: "response-written-while-shutting-down", Shutdown: 120, Exchs: []exchJ{
+		{Class: "response-written-while-shutting-down", Shutdown: 400, Exchs: []exchJ{
 			{get("HTTP/1.1"), oresp{Raw: []string{"", "HTTP/1.1 200 OK\r\nTransfer-Encoding: chunked\r\n\r\n5\r\nhello\r\n0\r\n\r\n"}, GapMs: 400, Proto: "HTTP/1.1", Code: 200, Reason: "OK", Framing: "chunked", Body: "hello", Chunks: []int{5}, HeadCL: -1}},
 			{get("HTTP/1.1"), plain}}},
 		{Class: "chunked-with-trailers", Exchs: []exchJ{{get("HTTP/1.1"), chTr}, {get("HTTP/1.1"), plain}, {xreq{Method: "HEAD", Proto: "HTTP/1.1"}, plain}, {get("HTTP/1.1"), ch}}},
@@ -1004,16 +1008,8 @@ func runCases(cases []ecaseJ, wait time.Duration) (rendered []string, outs []any
 			var res connResult
 			// a connection on which a response never completed is tried once more: a response that really
 			// lacks its end does so again, a stall caused by a loaded machine does not
-			for attempt := 0; attempt < 2; attempt++ {
+			for attempt := 0; attempt < 3; attempt++ {
 				rig = rigs[rigKey{c.Handler, c.AttachRT}]
-				if c.Shutdown > 0 {
-					r0 := newProxyRig(c.Handler)
-					rig = r0
-					go func() {
-						time.Sleep(time.Duration(c.Shutdown) * time.Millisecond)
-						r0.stop() // graceful shutdown: p.closing() becomes true, the exchange in flight is finished
-					}()
-				}
 				if attempt > 0 {
 					for i := range paths {
 						paths[i] += "r"
@@ -1023,11 +1019,35 @@ func runCases(cases []ecaseJ, wait time.Duration) (rendered []string, outs []any
 						org.mu.Unlock()
 					}
 					smu.Lock()
-					stats["connections_retried_after_timeout"]++
+					stats["connections_retried"]++
 					smu.Unlock()
 				}
+				if c.Shutdown > 0 {
+					// a rig of its own; the origin tells it to shut down gracefully when the first request has
+					// arrived there and answers c.Shutdown ms later: p.closing() is true when the response is written
+					r0 := newProxyRig(c.Handler)
+					rig = r0
+					org.mu.Lock()
+					org.scripts[paths[0]].onRequest = func() { r0.stop() }
+					org.mu.Unlock()
+				}
 				res = runConn(rig.addr, origin, paths, c, wait)
-				if !res.TimedOut {
+				if c.Shutdown > 0 {
+					// the scenario is only meaningful when the shutdown had begun before the response was written,
+					// which shows as "Connection: close"; otherwise (scheduling on a loaded machine) it is repeated.
+					// A proxy that ignores the shutdown never shows it and is reported after the third attempt.
+					announced := false
+					if len(res.Parsed) > 0 {
+						for _, v := range fieldVals(res.Parsed[0].Fields, "Connection") {
+							announced = announced || strings.Contains(strings.ToLower(v), "close")
+						}
+					}
+					if !announced && attempt < 2 {
+						continue
+					}
+					break
+				}
+				if !res.TimedOut || attempt >= 1 {
 					break
 				}
 			}
